@@ -98,6 +98,16 @@ func (e *Exec) Generate() (err error) {
 		}
 	}
 	e.entry = st.clone()
+	if e.Spec != nil && !e.Spec.Extern {
+		if why := e.staleContract(fn, e.Spec); why != "" {
+			// without its contract the function has no precondition to be
+			// verified against on its own; it is verified where it is called
+			// (inlined into its callers, which are under contract)
+			e.note("contract of %s does not fit the function any more (%s): ignored; the function is verified inlined into its callers only", e.fnName, why)
+			e.staleOwn = true
+			return nil
+		}
+	}
 	spec := e.Spec
 	var vars map[string]specVar
 	if spec != nil {
